@@ -104,7 +104,10 @@ func c16Build(v c16Vec, placement int) *c16Decl {
 		Pos: []*decl.PosArg{{Field: "CA", Name: "CARGA", Type: decl.TString, Desc: "CARGADESC"}}}
 	rm := &decl.Cmd{Field: "Rm", Name: "rm", Desc: "RMDESC", Aliases: []string{"RMALX"}, Opts: []*decl.Opt{by("RmO", "", "rmopt", "RMODESC")}}
 	hc := &decl.Cmd{Field: "Hc", Name: "hidcmd", Desc: "HIDCDESC", Hidden: true, Opts: []*decl.Opt{by("HcO", "", "hcopt", "HCODESC")}}
-	top.Cmds = []*decl.Cmd{add, rm, hc}
+	// a command that has no option of its own, only a subcommand with one
+	leaf := &decl.Cmd{Field: "Leaf", Name: "leafcmd", Desc: "LEAFCDESC", Opts: []*decl.Opt{by("LeafO", "", "leafopt", "LEAFODESC")}}
+	bare := &decl.Cmd{Field: "Bare", Name: "barecmd", Desc: "BARECDESC", Cmds: []*decl.Cmd{leaf}}
+	top.Cmds = []*decl.Cmd{add, rm, hc, bare}
 	switch placement {
 	case c16PlParser:
 		top.Opts = append(top.Opts, u)
@@ -144,6 +147,7 @@ func init() {
 		ci := c.Choose(len(c16Chains))
 		gen := c.Choose(3)       // 0 WriteHelp after a parse selecting the chain, 1 the ErrHelp text, 2 man page
 		late := c.Choose(2) == 1 // rm is hidden and hidcmd un-hidden through their public Hidden fields after a first rendering
+		given := gen == 1 && !v.onoff && !v.choices && c.Choose(2) == 1 // the help request follows an occurrence of U with a value
 		if gen == 2 && ci != 0 {
 			c.Skip() // the man page covers the whole tree whatever is active
 		}
@@ -177,6 +181,9 @@ func init() {
 			b.Parser.Find("hidcmd").Hidden = false
 			c.Hit("late-hidden-toggle")
 		}
+		if given && u.Owner != cd.d.Top && !contains(chain, u.Owner.Name) {
+			c.Skip() // U is not in scope on this chain
+		}
 		text := ""
 		func() {
 			defer func() {
@@ -191,7 +198,16 @@ func init() {
 				b.Parser.WriteHelp(&buf)
 				text = buf.String()
 			case 1:
-				_, err := b.Parser.ParseArgs(append(append([]string{}, argv...), "--help"))
+				hv := append([]string{}, argv...)
+				if given {
+					if u.Long != "" {
+						hv = append(hv, "--"+u.LongNS+"=UGIVENX")
+					} else {
+						hv = append(hv, "-uUGIVENX")
+					}
+					c.Hit("value-given-before-help")
+				}
+				_, err := b.Parser.ParseArgs(append(hv, "--help"))
 				fe, ok := err.(*flags.Error)
 				if !ok || fe.Type != flags.ErrHelp {
 					c.Fail("help-request-not-answered", fmt.Sprint(err))
@@ -245,6 +261,10 @@ func init() {
 		}
 		gname := []string{"help", "help", "man"}[gen]
 		c.Outcome(gname, fmt.Sprint(visible), fmt.Sprint(placement, ci), fmt.Sprint(has("UDESCX"), has("UDFLTX"), has("UMASKX"), has("UENVX"), has("UCHBX"), has("UVALX"), has("ulongx")))
+		// a value given on the command line is not the option's default (nor anything else the help text shows)
+		if given && has("UGIVENX") {
+			c.Fail("given-value-shown-in-help", excerpt(text, "UGIVENX"))
+		}
 		// a masked default's real value never appears (choices that repeat it are avoided when a mask is set)
 		if v.def >= 2 && !v.choices && has("UDFLTX") {
 			c.Fail("masked-default-shown|"+gname, excerpt(text, "UDFLTX"))
@@ -337,7 +357,7 @@ func init() {
 			return
 		}
 		if gen == 2 {
-			for _, m := range []string{"toplong", "TOPDESC", "subopt", "SUBODESC", "addopt", "ADDODESC", "cgopt", "deepopt", "rmopt", "ADDDESC", "ADDALX", "DEEPDESC", "RMALX", "RMDESC"} {
+			for _, m := range []string{"toplong", "TOPDESC", "subopt", "SUBODESC", "addopt", "ADDODESC", "cgopt", "deepopt", "rmopt", "ADDDESC", "ADDALX", "DEEPDESC", "RMALX", "RMDESC", "barecmd", "BARECDESC", "leafcmd", "LEAFCDESC", "leafopt", "LEAFODESC"} {
 				if !has(m) {
 					c.Fail("visible-item-missing|man|bystander", m)
 					return
@@ -388,11 +408,11 @@ func init() {
 		Body:       body,
 		Rule: "option under test with every attribute vector {short only, long only, both} x description? x default {none, tag, tag+mask, tag+mask '-'} x env? x choices? x value-name? x hidden? (spelled yes / False / NO) x required? (768 vectors; defaults, masks and descriptions contain per-cent signs; without a default also as a bool-kinded Unmarshaler type) " +
 			"x 10 placements (parser group, namespaced subgroup with env-namespace, hidden subgroup, command, command's group, hidden command, sub-subcommand, sibling command, subgroup nested in the env-namespaced subgroup without / with its own env-namespace) x 5 active chains (none, add, add deep, rm, the hidden command) " +
-			"x {WriteHelp after a parse that selects the chain, the ErrHelp text of --help at that chain, WriteManPage} (+ a variant where one command is hidden and another un-hidden through the public Hidden field after a first help/man rendering on the same parser); every string is a unique marker; oracle: a visible option's markers (names, value name, choices, description, default or mask, env) are present and its description sits on its row, " +
-			"nothing of a hidden option / hidden group / hidden or inactive command appears, a masked default's real value never appears; the fixed part of the declaration (bystander options, described positionals, commands with aliases, hidden command and group) is checked on every leaf; " +
+			"x {WriteHelp after a parse that selects the chain, the ErrHelp text of --help at that chain, WriteManPage} (+ the ErrHelp text requested after an occurrence of the option with a value, which must not show up; + a variant where one command is hidden and another un-hidden through the public Hidden field after a first help/man rendering on the same parser); every string is a unique marker; oracle: a visible option's markers (names, value name, choices, description, default or mask, env) are present and its description sits on its row, " +
+			"nothing of a hidden option / hidden group / hidden or inactive command appears, a masked default's real value never appears; the fixed part of the declaration (bystander options, described positionals, commands with aliases, hidden command and group, a command without options of its own whose subcommand has one) is checked on every leaf; " +
 			"distinct = distinct (generator, visible?, placement, chain, markers present)",
 		Assumptions:  []string{"not demanded of the man page: choices, positional arguments, env beside a default (man.go never rendered them)", "help of an active hidden command is not defined by the statement and is skipped"},
-		RequiredHits: []string{"visible|help", "invisible|help", "visible|man", "invisible|man"},
+		RequiredHits: []string{"visible|help", "invisible|help", "visible|man", "invisible|man", "value-given-before-help"},
 		Bound:        [2]string{"complete product", "complete product"},
 		BudgetS:      [2]int{170, 600},
 	})
